@@ -49,6 +49,10 @@ pub enum Tamper {
     InfinityForgery,
     /// a multi-byte alteration (see props/multi.rs) of region 0: r, 1: s, 2: r||s
     Multi(u8, Multi),
+    /// the *valid* (r, s) in another encoding, never 64 bytes long: 0 DER SEQUENCE{INTEGER,INTEGER}; 1 DER + trailing byte; 2 each component padded to 33 bytes;
+    /// 3 04||r||s; 4 00||r||s; 5 lowercase hex text; 6 r||s||r||s; 7 leading zero bytes stripped from r and s (only when that shortens it);
+    /// 8 r||s||00; 9 DER with a long-form length; 10 uppercase hex text; 11 OCTET STRING wrapping r||s
+    AltEncoding(u8),
 }
 
 fn edges() -> Vec<BigUint> {
@@ -208,6 +212,29 @@ pub fn check(c: &Case) -> CaseResult {
             put(&mut sig, 1, &ss);
             class = "sum-is-infinity";
         }
+        Tamper::AltEncoding(kind) => {
+            use crate::refimpl::der;
+            let raw = sig.clone();
+            let strip = |b: &[u8]| -> Vec<u8> { let z = b.iter().take_while(|x| **x == 0).count(); b[z.min(b.len() - 1)..].to_vec() };
+            sig = match kind % 12 {
+                0 => der::seq(&[der::integer(&r), der::integer(&s)]),
+                1 => { let mut v = der::seq(&[der::integer(&r), der::integer(&s)]); v.push(0); v }
+                2 => { let mut v = vec![0u8]; v.extend_from_slice(&raw[..32]); v.push(0); v.extend_from_slice(&raw[32..]); v }
+                3 => { let mut v = vec![4u8]; v.extend_from_slice(&raw); v }
+                4 => { let mut v = vec![0u8]; v.extend_from_slice(&raw); v }
+                5 => hex::encode(&raw).into_bytes(),
+                6 => [&raw[..], &raw[..]].concat(),
+                7 => [strip(&raw[..32]), strip(&raw[32..])].concat(),
+                8 => { let mut v = raw.clone(); v.push(0); v }
+                9 => { let body = [der::integer(&r), der::integer(&s)].concat(); let mut v = vec![0x30, 0x81, body.len() as u8]; v.extend_from_slice(&body); v }
+                10 => hex::encode_upper(&raw).into_bytes(),
+                _ => der::tlv(0x04, &raw),
+            };
+            if sig.len() == 64 {
+                return pass(false, "alt-encoding-is-64-bytes");
+            }
+            class = "alt-encoding";
+        }
         Tamper::Multi(region, m) => {
             let (lo, hi, name) = match region % 3 {
                 0 => (0, 32, "multi-r"),
@@ -267,6 +294,7 @@ pub fn tamper_strategy() -> impl Strategy<Value = Tamper> {
         2 => Just(Tamper::InfinityForgery),
         1 => Just(Tamper::None),
         5 => (0..3u8, multi::strategy()).prop_map(|(r, m)| Tamper::Multi(r, m)),
+        3 => (0..12u8).prop_map(Tamper::AltEncoding),
     ]
 }
 
@@ -289,7 +317,7 @@ pub fn run(ctx: &Ctx) {
     ctx.set_rule(
         "a case is (base, tampering): the base is a valid signature made by the *reference* signer for generated (d, ID, message, k); tamperings: every one of the 512 single-bit flips of r||s \
          (exhaustive per base), r or s replaced by {0, 1, n-1, n, n+1, 2^256-1, p, 2^255}, s = n-r, swapped r/s, r+n and s+n when they fit, message bit flip / truncation / extension, another ID, \
-         another key (-P, P+G, unrelated), every signature length 0..=130 (truncation, extension by zeros / 0xFF / random), independent random (r,s), multi-byte alterations of r / s / r||s that preserve the xor, the sum or the multiset of the bytes or words, and the untouched signature. \
+         another key (-P, P+G, unrelated), every signature length 0..=130 (truncation, extension by zeros / 0xFF / random), independent random (r,s), the valid (r, s) re-encoded in 12 other ways (DER, DER variants, padded / prefixed / stripped components, hex text, doubled, OCTET STRING: none is 64 bytes, all must be rejected), multi-byte alterations of r / s / r||s that preserve the xor, the sum or the multiset of the bytes or words, and the untouched signature. \
          Oracle: the reference verifier decides; the library must return Ok exactly when the reference accepts; a panic is a violation. Non-trivial: a case the reference rejects.",
     );
     ctx.assume("reference verifier (harness/src/refimpl/sm2.rs): independent verification equation and ZA; exactly-64-byte rule from the property statement");
@@ -323,6 +351,27 @@ pub fn run(ctx: &Ctx) {
         v
     }, check);
 
+    ctx.listed("related_key_sequences", "verify under P, then -P (same x coordinate), then P, then P+G on one thread inside one case, valid and altered signatures interleaved: anything the library remembers between calls is carried over", move || {
+        let mut v: Vec<Vec<Case>> = Vec::new();
+        for b in fixed_bases(seed ^ 0x5e9, 3) {
+            v.push(vec![
+                Case { base: b.clone(), tamper: Tamper::None }, Case { base: b.clone(), tamper: Tamper::KeyNeg }, Case { base: b.clone(), tamper: Tamper::None }, Case { base: b.clone(), tamper: Tamper::KeyPlusG },
+                Case { base: b.clone(), tamper: Tamper::FlipBit(300) }, Case { base: b.clone(), tamper: Tamper::None }, Case { base: b.clone(), tamper: Tamper::OtherId(0) }, Case { base: b.clone(), tamper: Tamper::None },
+            ]);
+        }
+        v
+    }, |steps: &Vec<Case>| seq(steps, check));
+
+    ctx.cold("cold_start_verify", "verify as the first library operation of a fresh process: a valid signature, a bit flip, an over-long encoding", move || {
+        let mut v = Vec::new();
+        for b in fixed_bases(seed ^ 0xc01d, 3) {
+            for t in [Tamper::None, Tamper::FlipBit(77), Tamper::AltEncoding(0), Tamper::Length(65, 0)] {
+                v.push(Case { base: b.clone(), tamper: t });
+            }
+        }
+        v
+    }, check);
+
     let nbm = ctx.tier.pick(3, 24);
     ctx.exhaustive("multi_byte_alterations", "alterations of r (all byte pairs x 3 masks, sum-preserving pairs, rotations, word shuffles, partial keeps, 100 replacements) and of s / r||s (pairs at word distances) that keep the xor, the sum or the multiset of the bytes or words — a folded or partial comparison of R with r accepts them", move || {
         let mut v = Vec::new();
@@ -348,6 +397,9 @@ pub fn run(ctx: &Ctx) {
                 for e in 0..8u8 {
                     v.push(Case { base: b.clone(), tamper: Tamper::SetComponent(comp, e) });
                 }
+            }
+            for k in 0..12u8 {
+                v.push(Case { base: b.clone(), tamper: Tamper::AltEncoding(k) });
             }
             for t in [Tamper::None, Tamper::InfinityForgery, Tamper::SEqualsNMinusR, Tamper::SwapRS, Tamper::RPlusN, Tamper::SPlusN, Tamper::MsgFlipBit(0), Tamper::MsgFlipBit(0xFFFF_FFFF), Tamper::MsgTruncate, Tamper::MsgExtend(0), Tamper::KeyNeg, Tamper::KeyPlusG, Tamper::KeyOther(1)] {
                 v.push(Case { base: b.clone(), tamper: t });
